@@ -655,7 +655,57 @@ func r16Sorted(c *core.Ctx, p *load.Program) {
 			ok = true
 		}
 	}
-	c.Check(ok, "R16.4", "hackpadfs.ReadDir|fallback-sorts", p.Pos(helper.Pos()), "fallback is io/fs.ReadDir (sorts by name)", "hackpadfs.ReadDir: the generic fallback no longer ends in io/fs.ReadDir, listings are not sorted by construction")
+	// or: the listing of the opened directory handle is kept in a variable that is passed through package sort
+	// before it is returned (the variable has that one assignment)
+	ssax.Instrs(helper, func(ins ssa.Instruction) {
+		sc, isCall := ins.(*ssa.Call)
+		if !isCall || len(sc.Call.Args) == 0 {
+			return
+		}
+		callee := ssax.StaticCallee(sc)
+		if callee == nil || callee.Pkg == nil || (callee.Pkg.Pkg.Path() != "sort" && callee.Pkg.Pkg.Path() != "slices") {
+			return
+		}
+		arg := sc.Call.Args[0]
+		if mi, isMI := arg.(*ssa.MakeInterface); isMI {
+			arg = mi.X
+		}
+		ld, isLoad := arg.(*ssa.UnOp)
+		if !isLoad {
+			return
+		}
+		cell, isCell := ld.X.(*ssa.Alloc)
+		if !isCell || cell.Referrers() == nil {
+			return
+		}
+		stores, fromListing := 0, false
+		for _, r := range *cell.Referrers() {
+			if st, isSt := r.(*ssa.Store); isSt && st.Addr == ssa.Value(cell) {
+				stores++
+				if ex, isEx := st.Val.(*ssa.Extract); isEx && ex.Index == 0 {
+					if lc, isLC := ex.Tuple.(*ssa.Call); isLC && lc.Call.IsInvoke() && lc.Call.Method.Name() == "ReadDir" && ssax.Dominates(st, sc) {
+						fromListing = true
+					}
+				}
+			}
+		}
+		// the sorted variable is what the function returns
+		returned := false
+		for _, r := range *cell.Referrers() {
+			if u, isU := r.(*ssa.UnOp); isU && ssax.Dominates(sc, u) && u.Referrers() != nil {
+				for _, rr := range *u.Referrers() {
+					switch rr.(type) {
+					case *ssa.Return, *ssa.Store:
+						returned = true
+					}
+				}
+			}
+		}
+		if stores == 1 && fromListing && returned {
+			ok = true
+		}
+	})
+	c.Check(ok, "R16.4", "hackpadfs.ReadDir|fallback-sorts", p.Pos(helper.Pos()), "the generic fallback sorts by name (io/fs.ReadDir, or the handle's listing passed through sort before it is returned)", "hackpadfs.ReadDir: the generic fallback neither ends in io/fs.ReadDir nor sorts the handle's listing before returning it: listings are not sorted by construction")
 	rdI := ifaceOf(p, "", "ReadDirFS")
 	if rdI == nil {
 		c.Hard("anchor: hackpadfs.ReadDirFS")
